@@ -8,7 +8,7 @@ STEP_KINDS = ['rewrite', 'assign-value', 'assign-units', 'rename', 'origin-ref',
               'add-nf-data', 'other-window', 'other-chunks', 'other-data', 'other-data-dtype', 'other-data-width', 'foreign-same-names', 'foreign-colliding-values',
               'hc-mode-around', 'param-values', 'clear-channel-units', 'change-channel-units', 'assign-other-kind',
               'rename-then-reuse-name', 'rejected-add-then-same-name', 'assign-derived-attr', 'rename-channel',
-              'channel-leaves-frame', 'frameless-channel-dimension', 'frameless-channel-joins-frame']
+              'channel-leaves-frame', 'frameless-channel-dimension', 'frameless-channel-joins-frame', 'dtime-other-fold']
 META = {
     'level': 'exploration',
     'rule': ('one evaluation = one history (foreign files built and written, the target file built, written, mutated and '
@@ -71,6 +71,8 @@ def base_spec(r, avoid):
     ops.append({'op': 'long_name', 'name': 'K-LN', 'attrs': {'quantity': 'pressure'}})
     ops.append({'op': 'parameter', 'name': 'K-PARAM', 'attrs': {'values': [r.choice(['text value', 12.5, 7])], 'long_name': 'param text'}})
     ops.append({'op': 'zone', 'name': 'K-ZONE', 'attrs': {'domain': 'TIME', 'maximum': 5.5, 'minimum': 1.0}})
+    # an aware date-time inside a repeated hour (zone object shared by all date-times of the zone, as with zoneinfo)
+    ops.append({'op': 'zone', 'name': 'K-ZONE-T', 'attrs': {'domain': 'TIME', 'maximum': {'$dt': [2024, 10, 27, 2, 30, 0, 0], 'tz': 'RH', 'fold': r.choice([0, 1])}}})
     ops.append({'op': 'axis', 'name': 'K-AXIS', 'attrs': {'coordinates': r.choice([[1, 2, 3], ['a', 'b'], [0.5, 1.5]])}})
     sp['write'] = {'output_chunk_size': 2 ** 16}
     return sp
@@ -163,6 +165,16 @@ def make_phase(r, kind, ops_so_far, base, avoid):
             cands = [(i, o) for i, o in objs if o['op'] in ('frame', 'no_format', 'zone', 'axis')] or cands
         i, o = r.choice(cands)
         ph['ops'].append({'op': 'setattr', 'target': i, 'field': 'name', 'value': 'RENAMED-%d' % i})
+    elif kind == 'dtime-other-fold':
+        # the OTHER occurrence of the same wall-clock time (equal as a dict key, another instant)
+        for i, o in objs:
+            if o['name'] == 'K-ZONE-T':
+                cur = o['attrs']['maximum']
+                for q in ops_so_far:
+                    if q.get('op') == 'assign' and q.get('target') == i and q.get('kw') == 'maximum':
+                        cur = q['value']
+                ph['ops'].append({'op': 'assign', 'target': i, 'target_op': 'zone', 'kw': 'maximum', 'part': 'value',
+                                  'value': dict(cur, fold=1 - cur['fold'])})
     elif kind == 'rename-channel':
         # a channel (with explicit dataset_name, so that its data are still found) is renamed after a write: whatever was
         # defaulted from its name at that write (LONG-NAME) follows
